@@ -45,27 +45,11 @@ Definition serialize (dag : bool) (c : command) : sexp :=
   end.
 
 (* TypesOracle.get_types(formula, custom_only=True): every custom sort INSTANCE reachable from the
-   sorts of the formula's symbols, bound variables, constants, function signatures AND (since the
-   repair of the oracle) of everything inside the arguments of function applications and the
-   index sort of array values.  [types_walk'] is models/Oracles.v's [types_walk] with those two
-   cases repaired; it can be replaced by Oracles.get_types once that model follows the repair. *)
-Fixpoint types_walk' (t : term) : list ty :=
-  match t with
-  | T o args =>
-      let rec := unions ty_eqb (map types_walk' args) in
-      match o with
-      | OSymbol _ ty => [ty]
-      | OFunction _ (TFun ps r) => union ty_eqb (dedupe ty_eqb (r :: ps)) rec
-      | OFunction _ _ => rec
-      | OArrayValue it => union ty_eqb [it] rec
-      | OForall vs | OExists vs => union ty_eqb (dedupe ty_eqb (map snd vs)) rec
-      | OBoolC _ | OIntC _ | ORealC _ _ | OBVC _ _ | OStrC _ => const_type o
-      | _ => rec
-      end
-  end.
+   sorts of the formula's symbols, bound variables, constants, function signatures, of everything
+   inside the arguments of function applications and of the index sort of array values:
+   models/Oracles.v's get_types (C12: Oracles_proofs.get_types_def), filtered. *)
 Definition is_custom (t : ty) : bool := match t with TUser _ _ => true | _ => false end.
-Definition custom_types (t : term) : list ty :=
-  filter is_custom (dedupe ty_eqb (flat_map subtypes (types_walk' t))).
+Definition custom_types (t : term) : list ty := filter is_custom (get_types t).
 
 (* one declare-sort per sort DECLARATION (name, arity): all instances of a parametric sort share it *)
 Definition decl_eqb (a b : string * nat) : bool := String.eqb (fst a) (fst b) && Nat.eqb (snd a) (snd b).
